@@ -396,6 +396,8 @@ class Ref:
             if any(isinstance(d, Literal) and d.value is True for d in sg.objects(c, SH.deactivated)):
                 continue
             R.extend(self.sparql_results(s, c, f))
+        for comp in self.sg.subjects(RDF.type, SH.ConstraintComponent):
+            R.extend(self.component_results(s, comp, f, vs))
         # shape-based and logical components: from conformance facts only
         for n in sg.objects(s, SH["not"]):
             for v in vs:
@@ -459,6 +461,51 @@ class Ref:
             raise Unsupported("$PATH on a node shape")
         rows = sparqlgen.run_query_directly(self.sg, self.dg, c, s, f)
         return sparqlgen.expected_results(self.sg, self.dg, s, c, f, rows, self)
+
+    def component_results(self, s, comp, f, vs):
+        """SHACL §6: a SPARQL-based constraint component applies when all mandatory parameters have values"""
+        import sparqlgen
+        sg = self.sg
+        if not sparqlgen.applicable(sg, comp, s):
+            return []
+        is_prop = self.is_prop(s)
+        v, kind = sparqlgen.choose_validator(sg, comp, is_prop)
+        if v is None:
+            raise Unsupported("no validator")
+        t = (self.sparql_templates or {}).get(v)
+        if t is None:
+            raise Unsupported("validator without a template descriptor")
+        params = sparqlgen.param_values(sg, comp, s)
+        out = []
+
+        def mk(this, value, path, binds):
+            r = self.result(s, "X", this, value, path)
+            r["component"] = wire.tkey(comp)
+            args = dict(params)
+            args.update({"this": this})
+            if is_prop:
+                args["path"] = sg.value(s, SH.path)
+                args["PATH"] = sg.value(s, SH.path)
+            args.update(binds)
+            msgs = [Literal(sparqlgen.fill(str(m), args)) for m in sg.objects(v, SH.message)] + [m for m in sg.objects(s, SH.message)]
+            r["messages"] = sorted(wire.tkey(m) for m in msgs)
+            return r
+        if kind == "ask":
+            for val in vs:
+                if not sparqlgen.run_validator_directly(sg, self.dg, v, "ask", s, f, val, params):
+                    out.append(mk(f, None if is_prop else val, None, {"value": val}))
+        else:
+            rows = sparqlgen.run_validator_directly(sg, self.dg, v, "select_free", s, f, None, params)
+            seen = set()
+            for row in rows:
+                key = tuple(sorted((k, wire.tkey(x)) for k, x in row.items()))
+                if key in seen:
+                    continue
+                seen.add(key)
+                this = row.get("this", f)
+                value = row.get("value", None if is_prop else f)
+                out.append(mk(this, value, row.get("path"), {k: x for k, x in row.items()}))
+        return out
 
     sparql_templates = None
 
